@@ -2,8 +2,8 @@ import PolyVerif.Model.Uniprot
 /-
 An independent, document-level reading of a Uniprot XML stream for C20: a small XML reader for the
 subset the documents of Spec/UniprotDoc are written in (XML declaration / processing instructions,
-comments, start tags with quoted attributes, empty-element tags, end tags, character data without
-entities), followed by what `encoding/xml` + `DecodeElement(&Entry)` make of the tokens:
+comments, start tags with quoted attributes, empty-element tags, end tags, character data with the five
+predefined entities only), followed by what `encoding/xml` + `DecodeElement(&Entry)` make of the tokens:
 
   text ──lexAll──▶ tokens (+ "the text stopped being XML here") ──scanToks──▶ Trace
 
@@ -42,6 +42,21 @@ def legalChar (c : Char) : Bool := 32 ≤ c.toNat || c == '\t' || c == '\n' || c
 /-- character data of the subset: legal characters, no markup start, no entity or CDATA-end -/
 def textChar (c : Char) : Bool := legalChar c && c != '<' && c != '&' && c != ']'
 def valueChar (q c : Char) : Bool := legalChar c && c != '<' && c != '&' && c != q
+
+/-- the predefined entities (the only ones a strict decoder without an entity table knows) -/
+def entityNames : List Str := [['a', 'm', 'p'], ['l', 't'], ['g', 't'], ['q', 'u', 'o', 't'], ['a', 'p', 'o', 's']]
+
+/-- character data: legal characters without `<` and `]`; every `&` starts one of the predefined entities
+`&name;` (the second argument is the entity name read so far, in reverse, while inside one) -/
+def validTextAux : Option Str → Str → Bool
+  | none, [] => true
+  | some _, [] => false
+  | none, c :: r => if c = '&' then validTextAux (some []) r else (legalChar c && c != '<' && c != ']') && validTextAux none r
+  | some n, c :: r =>
+    if c = ';' then entityNames.contains n.reverse && validTextAux none r
+    else c.isAlpha && validTextAux (some (c :: n)) r
+
+def validText (t : Str) : Bool := validTextAux none t
 
 /-! ### the lexer -/
 
@@ -109,7 +124,7 @@ def nextTok : Str → LexRes
        | none => .err)
   | c :: r =>
     let t := (c :: r).takeWhile (fun x => x != '<')
-    if t.all textChar then .tok (.chars t) ((c :: r).dropWhile (fun x => x != '<')) else .err
+    if validText t then .tok (.chars t) ((c :: r).dropWhile (fun x => x != '<')) else .err
 
 /-- all tokens up to the end of the text or the first place where it stops being XML of the subset
 (`true` = stopped with an error); `fuel` = an upper bound on the number of tokens -/
